@@ -12,6 +12,7 @@ import (
 
 	"go.starlark.net/starlark"
 	"go.starlark.net/starlarkstruct"
+	"go.starlark.net/syntax"
 
 	"verifharness/internal/hx"
 )
@@ -36,7 +37,11 @@ func opsMain(args []string) {
 	fs := flag.NewFlagSet("ops", flag.ExitOnError)
 	seed := fs.Uint64("seed", 1, "")
 	n := fs.Int("n", 200, "")
+	big := fs.Int("big", 0, "big dict / set trials checked against a naive oracle in Go")
 	fs.Parse(args)
+	if *big > 0 {
+		bigOracle(*seed, *big)
+	}
 	thread := &starlark.Thread{Name: "ops"}
 	for h := 0; h < *n; h++ {
 		r := hx.NewRand(*seed*31337 + uint64(h)).Split()
@@ -147,3 +152,138 @@ func opsMain(args []string) {
 }
 
 func string2runes(s string) []rune { return []rune(s) }
+
+// bigOracle: dicts and sets of hundreds of long-string keys (several table
+// doublings, overflow bucket chains) against a naive oracle written here: an
+// insertion-ordered slice and a Go map.  The volume is too large for the Coq
+// evaluation; the Coq-sized histories above cross-check the same specification.
+func bigOracle(seed uint64, trials int) {
+	thread := &starlark.Thread{Name: "big"}
+	bad := 0
+	report := func(what, detail string) {
+		if bad < 20 {
+			hx.Emit(map[string]any{"kind": "bigmismatch", "what": what, "detail": detail})
+		}
+		bad++
+	}
+	for t := 0; t < trials; t++ {
+		r := hx.NewRand(seed*77773 + uint64(t)).Split()
+		n := 20 + r.Intn(380)
+		keys := make([]string, n)
+		for i := range keys {
+			keys[i] = fmt.Sprintf("big_key_%d_%d_with_long_suffix", t, r.Intn(1000000))
+		}
+		// ---- dict
+		d := starlark.NewDict(0)
+		val := map[string]int{}
+		var order []string
+		del := func(k string) {
+			if _, ok := val[k]; ok {
+				delete(val, k)
+				for i, o := range order {
+					if o == k {
+						order = append(order[:i], order[i+1:]...)
+						break
+					}
+				}
+			}
+		}
+		for i, k := range keys {
+			if _, ok := val[k]; !ok {
+				order = append(order, k)
+			}
+			val[k] = i
+			d.SetKey(starlark.String(k), starlark.MakeInt(i))
+			v, found, _ := d.Get(starlark.String(k))
+			if !found || v.String() != fmt.Sprint(i) {
+				report("dict:get-after-set", fmt.Sprintf("trial %d: after d[%q]=%d (entry #%d) lookup gives found=%v value=%v", t, k, i, len(order), found, v))
+			}
+			if d.Len() != len(order) {
+				report("dict:len", fmt.Sprintf("trial %d: len %d after %d distinct insertions", t, d.Len(), len(order)))
+			}
+			if r.Intn(5) == 0 {
+				k2 := keys[r.Intn(i+1)]
+				_, found, _ := d.Delete(starlark.String(k2))
+				_, want := val[k2]
+				if found != want {
+					report("dict:delete", fmt.Sprintf("trial %d: delete %q found=%v want %v", t, k2, found, want))
+				}
+				del(k2)
+			}
+		}
+		for _, k := range keys {
+			_, found, _ := d.Get(starlark.String(k))
+			if _, want := val[k]; found != want {
+				report("dict:membership", fmt.Sprintf("trial %d: %q in d = %v, want %v (len %d)", t, k, found, want, d.Len()))
+			}
+		}
+		got := d.Keys()
+		if len(got) != len(order) {
+			report("dict:keys-len", fmt.Sprintf("trial %d: %d keys, want %d", t, len(got), len(order)))
+		} else {
+			for i := range got {
+				if string(got[i].(starlark.String)) != order[i] {
+					report("dict:iteration-order", fmt.Sprintf("trial %d: key #%d is %v, want %q", t, i, got[i], order[i]))
+					break
+				}
+			}
+		}
+		// ---- sets
+		a := starlark.NewSet(0)
+		var allKeys []starlark.Value
+		for _, k := range keys {
+			a.Insert(starlark.String(k))
+			allKeys = append(allKeys, starlark.String(k))
+		}
+		for q := 0; q < 12; q++ {
+			lo := r.Intn(n)
+			hi := lo + 1 + r.Intn(n-lo)
+			b := starlark.NewSet(0)
+			sub := true
+			var list []starlark.Value
+			for _, k := range keys[lo:hi] {
+				b.Insert(starlark.String(k))
+				list = append(list, starlark.String(k))
+			}
+			if r.Intn(3) == 0 {
+				x := fmt.Sprintf("not_a_member_%d_%d_long_enough", t, q)
+				b.Insert(starlark.String(x))
+				list = append(list, starlark.String(x))
+				sub = false
+			}
+			proper := sub && b.Len() < a.Len()
+			check := func(what string, got bool, err error, want bool) {
+				if err != nil || got != want {
+					report("set:"+what, fmt.Sprintf("trial %d: |a|=%d |b|=%d: %s = %v (err %v), want %v", t, a.Len(), b.Len(), what, got, err, want))
+				}
+			}
+			le, err := starlark.Compare(syntax.LE, b, a)
+			check("b<=a", le, err, sub)
+			lt, err := starlark.Compare(syntax.LT, b, a)
+			check("b<a", lt, err, proper)
+			ge, err := starlark.Compare(syntax.GE, a, b)
+			check("a>=b", ge, err, sub)
+			eq, err := starlark.Compare(syntax.EQL, a, b)
+			check("a==b", eq, err, sub && b.Len() == a.Len())
+			for _, m := range []struct {
+				recv *starlark.Set
+				name string
+				arg  starlark.Value
+				want bool
+			}{{b, "issubset", a, sub}, {a, "issuperset", b, sub}, {b, "issubset", starlark.NewList(allKeys), sub}, {a, "issuperset", starlark.NewList(list), sub}} {
+				fn, _ := m.recv.Attr(m.name)
+				res, err := starlark.Call(thread, fn, starlark.Tuple{m.arg}, nil)
+				check(m.name, res == starlark.True, err, m.want)
+			}
+			inter, _ := a.Intersection(b.Iterate())
+			wantInter := b.Len()
+			if !sub {
+				wantInter--
+			}
+			if inter.(*starlark.Set).Len() != wantInter {
+				report("set:intersection", fmt.Sprintf("trial %d: |a&b| = %d, want %d", t, inter.(*starlark.Set).Len(), wantInter))
+			}
+		}
+	}
+	hx.Emit(map[string]any{"kind": "bigsummary", "trials": trials, "mismatches": bad})
+}
